@@ -2,6 +2,7 @@ package harness
 
 import (
 	"context"
+	"github.com/platinummonkey/go-concurrency-limits/verifsim"
 	"time"
 
 	"github.com/platinummonkey/go-concurrency-limits/core"
@@ -136,7 +137,20 @@ func runC05(r *Run) {
 		}
 		return nil
 	}())
-	dl, err := limiter.NewDefaultLimiter(ll, 1, 1, 0, 10, ls, nopLogger{}, core.EmptyMetricRegistryInstance)
+	var lg limit.Logger = nopLogger{}
+	if t.Chance(25, "debug-logger") {
+		lg = &debugLogger{} // formats its arguments: String() of whatever the limiter logs, under whatever lock it holds
+	}
+	dl, err := limiter.NewDefaultLimiter(ll, 1, 1, 0, 10, ls, lg, core.EmptyMetricRegistryInstance)
+	unit := time.Nanosecond
+	if t.Chance(8, "with-defaults-constructor") {
+		// the other public constructor: default Vegas limit (estimate 20), default windows (1 s, 100 samples);
+		// the strategy was built with its own initial limit and must be given the estimate here as well
+		dl, err = limiter.NewDefaultLimiterWithDefaults("dflt", ls, lg, core.EmptyMetricRegistryInstance)
+		unit = 15 * time.Millisecond
+		r.Probe("with_defaults_constructor")
+		r.Mixf("  built with NewDefaultLimiterWithDefaults")
+	}
 	if err != nil {
 		r.Fail("harness", "build", "%v", err)
 		return
@@ -237,13 +251,37 @@ func runC05(r *Run) {
 	}
 	// pre-phase: fill the window
 	pump := 9 + t.Intn(3, "pump")
+	var rtts []time.Duration
 	for i := 0; i < pump; i++ {
-		l, ok := dl.Acquire(partKey(i))
-		if !ok {
-			break
+		rtts = append(rtts, time.Duration(1+t.Intn(3, "pump-rtt"))*unit)
+	}
+	// on the driving goroutine, with the lock probes armed: nobody else exists yet, so a busy lock can only be one
+	// this goroutine holds itself (e.g. a log statement formatting the limiter under the limiter's own lock)
+	s.Activate()
+	selfDeadlock := ""
+	func() {
+		defer func() {
+			if e := recover(); e != nil {
+				if wb, ok := e.(verifsim.WouldBlock); ok {
+					selfDeadlock = wb.Site
+					return
+				}
+				panic(e)
+			}
+		}()
+		for i := 0; i < pump; i++ {
+			l, ok := dl.Acquire(partKey(i))
+			if !ok {
+				break
+			}
+			time.Sleep(rtts[i])
+			l.OnSuccess()
 		}
-		time.Sleep(time.Duration(1+t.Intn(3, "pump-rtt")) * time.Nanosecond)
-		l.OnSuccess()
+	}()
+	s.Deactivate()
+	if selfDeadlock != "" {
+		r.Fail("lock-deadlock", selfDeadlock, "a single goroutine completing tokens one after the other would block forever on the lock at %s, which it already holds (limiter %s)", selfDeadlock, kind)
+		return
 	}
 	if !check("after the sequential pre-phase") || s.Failed() != nil {
 		r.V = s.Failed()
@@ -258,7 +296,7 @@ func runC05(r *Run) {
 		var holds []time.Duration
 		var outs []int
 		for k := 0; k < rounds; k++ {
-			holds = append(holds, []time.Duration{1, 2, 3, 1000}[t.Intn(4, "hold")])
+			holds = append(holds, []time.Duration{1, 2, 3, 1000}[t.Intn(4, "hold")]*unit)
 			outs = append(outs, t.Pick([]int{8, 1, 2}, "outcome"))
 		}
 		tasks = append(tasks, s.Go("completer", func(tk *Task) {
